@@ -194,8 +194,8 @@ func (r *request) buildHTTP(mediaType, basePath string, producers map[string]run
 						// Need to read the data so that we can detect the content type
 						const contentTypeBufferSize = 512
 						buf := make([]byte, contentTypeBufferSize)
-						size, err := io.ReadFull(fi, buf)
-						if err != nil && err != io.EOF && err != io.ErrUnexpectedEOF {
+						size, err := readUpTo(fi, buf)
+						if err != nil {
 							logClose(err, pw)
 							return
 						}
@@ -529,4 +529,21 @@ func escapeTemplateLiterals(template string) string {
 		segments[i] = strings.NewReplacer("%7B", "{", "%7D", "}").Replace(url.PathEscape(segment))
 	}
 	return strings.Join(segments, "/")
+}
+
+// readUpTo fills buf from r and stops early at the end of r without reporting it as an error.
+// Unlike io.ReadFull, it does not mistake an io.ErrUnexpectedEOF reported by r itself for a short source.
+func readUpTo(r io.Reader, buf []byte) (int, error) {
+	var size int
+	for size < len(buf) {
+		n, err := r.Read(buf[size:])
+		size += n
+		if err == io.EOF {
+			break
+		}
+		if err != nil {
+			return size, err
+		}
+	}
+	return size, nil
 }
